@@ -24,6 +24,7 @@ import (
 	"github.com/Tnze/go-mc/level"
 	"github.com/Tnze/go-mc/level/block"
 	"github.com/Tnze/go-mc/nbt"
+	"github.com/Tnze/go-mc/nbt/dynbt"
 	mcnet "github.com/Tnze/go-mc/net"
 	pk "github.com/Tnze/go-mc/net/packet"
 	"github.com/Tnze/go-mc/registry"
@@ -797,6 +798,61 @@ func tinyCompressedFrames(c *vm.Ctx) {
 	}
 }
 
+// endTypedLists: a list whose element type is TAG_End is how an empty list is written; with its count changed to a
+// large number nothing follows that could be consumed per element. The readers that only skip or capture a value
+// (RawMessage inside a block entity or an NBT field, members a struct does not know) walk such a list with a loop of
+// their own: it has to end in an error at once, not after 2^31 rounds per list.
+func endTypedLists(c *vm.Ctx) {
+	for _, lists := range []int{1, 8, 64} {
+		for _, count := range []uint32{1, 1000, 1 << 20, 1<<31 - 1} {
+			// {"Items": [ lists x list(TAG_End, count) ], "z": 1b}
+			doc := []byte{0x0a, 0x09, 0, 5, 'I', 't', 'e', 'm', 's', 0x09, byte(lists >> 24), byte(lists >> 16), byte(lists >> 8), byte(lists)}
+			for i := 0; i < lists; i++ {
+				doc = append(doc, 0x00, byte(count>>24), byte(count>>16), byte(count>>8), byte(count))
+			}
+			doc = append(doc, 0x01, 0, 1, 'z', 1, 0x00)
+			type known struct {
+				Z int8 `nbt:"z"`
+			}
+			decs := []struct {
+				name string
+				run  func() error
+			}{
+				{"BlockEntity.ReadFrom", func() error {
+					var be level.BlockEntity
+					_, err := be.ReadFrom(rd(append([]byte{0x12, 0, 64, 5}, doc...)))
+					return err
+				}},
+				{"pk.NBT(RawMessage)", func() error { var m nbt.RawMessage; _, err := pk.NBT(&m).ReadFrom(rd(doc)); return err }},
+				{"NBTField(struct, unknown members allowed)", func() error {
+					var k known
+					_, err := pk.NBTField{V: &k, AllowUnknownFields: true}.ReadFrom(rd(doc))
+					return err
+				}},
+				{"pk.NBT(any)", func() error { var v any; _, err := pk.NBT(&v).ReadFrom(rd(doc)); return err }},
+				{"pk.NBT(dynbt.Value)", func() error { var v dynbt.Value; _, err := pk.NBT(&v).ReadFrom(rd(doc)); return err }},
+			}
+			for _, d := range decs {
+				wit := func() any {
+					return map[string]any{"decoder": d.name, "lists_of_end_type": lists, "declared_elements_each": count, "doc_hex": vm.Hex(doc[:min(len(doc), 200)])}
+				}
+				c.Inflight(fmt.Sprintf("end-typed lists: %s, %d lists declaring %d elements", d.name, lists, count))
+				c.FlushInflight()
+				var err error
+				if c.Guard("decode/end-typed-lists/"+d.name, wit, func() { err = d.run() }) {
+					continue
+				}
+				c.Eval(vm.HashStr("end-typed-lists", d.name, fmt.Sprint(lists, count)), true)
+				if err == nil {
+					c.Cover("end-typed-lists.accepted")
+				} else {
+					c.Cover("end-typed-lists.rejected")
+				}
+			}
+		}
+	}
+}
+
 type pipeEnd struct{ r io.Reader }
 
 func (p *pipeEnd) Read(b []byte) (int, error)       { return p.r.Read(b) }
@@ -1391,6 +1447,9 @@ func run(c *vm.Ctx) {
 	}
 	if c.Shard == 2%c.NShards {
 		tinyCompressedFrames(c)
+	}
+	if c.Shard == 3%c.NShards {
+		endTypedLists(c)
 	}
 	wideCounts(c)
 	if c.Shard == 3%c.NShards {
